@@ -69,6 +69,55 @@ def _self_dep(body, operand):
     return any(body.locals[l].get("name") == "self" for l in deps)
 
 
+def _exceeds_hint(body, operand):
+    """a description if some definition of the amount is not of the form h, h / d or (h + a) / d with a < d (all <= h)"""
+    import re as _re
+    if operand["k"] not in ("copy", "move"):
+        return None
+    l = body.root_of_place(operand["p"])[0]
+
+    def is_h(k):
+        sp = _split_top(k)
+        return bool(sp and sp[0].endswith("size_hint") and sp[2] == ".0")
+
+    def const(k):
+        m = _re.match(r"^c:(\d+):usize$", k)
+        return int(m.group(1)) if m else None
+
+    def le_h(k):
+        if is_h(k):
+            return True
+        sp = _split_top(k)
+        if not sp or sp[2] not in ("", ".0") or len(sp[1]) != 2:
+            return False
+        if sp[0] == "Div":
+            d = const(sp[1][1])
+            if d is None or d < 1:
+                return False
+            if is_h(sp[1][0]):
+                return True
+            inner = _split_top(sp[1][0])
+            if inner and inner[0] == "Add" and inner[2] in ("", ".0") and len(inner[1]) == 2:
+                a = const(inner[1][1]) if is_h(inner[1][0]) else (const(inner[1][0]) if is_h(inner[1][1]) else None)
+                return a is not None and a < d
+        return False
+    for d in body.whole_defs(l):
+        if d[0] == "call":
+            continue   # amounts produced by calls are judged by the component clause only
+        rv = d[3]["rv"]
+        if rv["k"] in ("use", "cast"):
+            k = expr_key(body, rv["op"])
+        elif rv["k"] == "binop":
+            k = "%s(%s,%s)" % (rv["op"].replace("WithOverflow", ""), expr_key(body, rv["a"]), expr_key(body, rv["b"]))
+        else:
+            continue
+        if "size_hint" not in k:
+            continue
+        if not le_h(k):
+            return k[-70:]
+    return None
+
+
 def r_hint_lower(F, V):
     """Space reserved ahead of a bulk insertion is sized from the *lower* bound of the iterator's size_hint only.  The upper
     bound of an honest iterator may be arbitrarily loose (`(0..usize::MAX).take_while(..)`, `filter`, `flat_map`): reserving it makes
@@ -107,6 +156,10 @@ def r_hint_lower(F, V):
                     R.violation(key + "|additional", body, "the amount passed to %s is computed from the collection's own state (len/capacity of `self`) as well as the size hint: reserve() takes the number of "
                                 "ADDITIONAL elements - adding the current length asks for room that is not needed, so extending by keys that fit in the spare capacity re-allocates" % cp, line=line_of(body, bb=i))
                     R.inst(key, "reserve amount includes the current length", "violation", True, where(body, bb=i))
+                elif _exceeds_hint(body, a):
+                    R.violation(key + "|exceeds", body, "the amount passed to %s can exceed the iterator's lower size bound (%s): more room is requested than elements are promised, so extending by n keys that "
+                                "fit in the spare capacity still re-allocates" % (cp, _exceeds_hint(body, a)), line=line_of(body, bb=i))
+                    R.inst(key, "reserve amount exceeds the hint", "violation", True, where(body, bb=i))
                 else:
                     R.inst(key, "amount derives from size_hint().0 only", "ok", True, where(body, bb=i))
     R.floor("reserve-from-size_hint sites", n, 2)
@@ -1073,6 +1126,58 @@ def r_probe_index(F, V):
             R.inst(key, "; ".join(sorted(set(probs))), "violation", True, where(b))
         else:
             R.inst(key, "index = (probe_seq.pos + bit) & bucket_mask", "ok", True, where(b, stmt=masked[0][0]))
+    # the group examined at a probe step is the one AT the probe position: Group::load(ctrl(probe_seq.pos))
+    for p in PROBE_INDEXERS + ("raw::RawTableInner::find_insert_slot",):
+        b = F.bodies.get(p)
+        if b is None:
+            continue
+        loads = [(i, t) for i, t in b.calls() if "Group::load" in (callee_path(t) or "")]
+        if not loads:
+            continue
+        key = p + "|group-at-pos"
+        bad = []
+        for i, t in loads:
+            idx = None
+            cur = t["args"][0] if t["args"] else None
+            for _ in range(10):
+                if cur is None or cur["k"] not in ("copy", "move"):
+                    break
+                dd = b.single_def(b.root_of_place(cur["p"])[0])
+                if not dd:
+                    break
+                if dd[0] == "call":
+                    if (callee_path(dd[3]) or "").endswith("RawTableInner::ctrl") and len(dd[3]["args"]) > 1:
+                        idx = expr_key(b, dd[3]["args"][1])
+                        break
+                    if (callee_path(dd[3]) or "").endswith("T::add") and len(dd[3]["args"]) > 1 and ".ctrl" in expr_key(b, dd[3]["args"][0]):
+                        idx = expr_key(b, dd[3]["args"][1])   # hand-written ctrl(index): self.ctrl.as_ptr().add(index)
+                        break
+                    cur = dd[3]["args"][0] if dd[3]["args"] else None
+                else:
+                    ops = rv_operands(dd[3]["rv"])
+                    cur = ops[0] if ops else None
+            if idx is not None and not idx.endswith(".pos"):
+                bad.append(idx)
+        if bad:
+            R.violation(key, b, "%s loads the control group at index `%s` instead of at the probe position (probe_seq.pos): the bits found there are then attributed to the buckets at pos + bit, "
+                        "i.e. to other buckets than the ones whose control bytes were read" % (p, bad[0][-50:]))
+            R.inst(key, "group not loaded at the probe position", "violation", True, where(b))
+        else:
+            R.inst(key, "groups are loaded at ctrl(probe_seq.pos)", "ok", True, where(b))
+    # iter_hash keeps (group, bitmask) as state: a freshly loaded group is the one its bitmask is computed from
+    ib = F.bodies.get("raw::<RawIterHashInner as Iterator>::next")
+    if ib is not None:
+        key = "raw::<RawIterHashInner as Iterator>::next|bitmask-of-fresh-group"
+        gstores = [i for i, k, s in ib.stmts() if s["k"] == "assign" and (last_field(s["p"]) or {}).get("name") == "group" and ib.root_of_place(s["p"])[0] == 1]
+        tags = [i for i, t in ib.calls() if (callee_path(t) or "").endswith("Group::match_tag")]
+        if not gstores or not tags:
+            R.undec("RawIterHashInner::next: store of self.group (%d) / match_tag (%d) not found" % (len(gstores), len(tags)))
+        elif all(any(ib.dominates(g, c) or g == c for c in tags) for g in gstores):
+            R.inst(key, "the tag match that refills self.bitmask is computed after (dominated by) the load that refills self.group", "ok", True, where(ib, bb=gstores[0]))
+        else:
+            R.violation(key, ib, "self.bitmask is refilled from the group of the PREVIOUS probe step (the load into self.group does not precede the match_tag): iter_hash replays the first group's matches "
+                        "at later positions and never yields matches of later groups", line=line_of(ib, bb=gstores[0]))
+            R.inst(key, "bitmask computed from the stale group", "violation", True, where(ib, bb=gstores[0]))
     R.floor("probe index sites", n, 4)
     return R
 
